@@ -185,9 +185,15 @@ def generate(seed, tier, idx=0):
             elif style < 0.85:
                 lo = -rng.randrange(2 ** 62)
                 hi = rng.randrange(2 ** 64)
-            else:
+            elif style < 0.97:
                 lo = rng.choice([0, -2 ** 999, 5])
                 hi = lo + rng.choice([2 ** 100, 2 ** 1000, 2 ** 53 + 1])
+            else:
+                # a range wider than the largest float (a 2048-bit integer): the draw may
+                # be refused (OverflowError), but then identically by every equally
+                # seeded stream, and never served from anywhere else
+                lo = rng.choice([0, 1, -2 ** 1030])
+                hi = lo + rng.choice([2 ** 1024, 2 ** 2048, 10 ** 400])
             ops.append([s, "int", lo, hi])
         elif r < 0.68:
             ops.append([s, "bool"])
@@ -210,15 +216,25 @@ def generate(seed, tier, idx=0):
     return case
 
 
+REFUSED_RANGE = ("refused: range beyond the float range",)
+
+
 def draw(st, op):
     if op[1] == "float":
         return st.next_float()
     if op[1] == "int":
-        return st.next_int(op[2], op[3])
+        try:
+            return st.next_int(op[2], op[3])
+        except OverflowError:
+            if op[3] - op[2] < 2 ** 1023:
+                raise
+            return REFUSED_RANGE
     return st.next_bool()
 
 
 def check_value(op, v):
+    if v is REFUSED_RANGE:
+        return None
     if op[1] == "float":
         if type(v) is not float or not (0.0 <= v < 1.0):
             return "next_float returned %r, not a float in [0,1)" % (v,)
